@@ -553,6 +553,31 @@ async def c17_excluded_builtin(w):
     return {"reproduced": bool(leaks), "observed": {"reached": leaks[:6], "cases": cases}, "expected": "no form yields the withheld builtin"}
 
 
+async def c08_mqtt_stale_payload_obj(w):
+    """Legacy MQTT handler: a JSON message followed by a non-JSON message on the same topic; the second delivery must not carry
+    the first one's payload_obj (nor anything else of it)."""
+    from types import SimpleNamespace as NS
+    from custom_components.pyscript.mqtt import Mqtt
+    hass = await boot()
+    Mqtt.init(hass)
+    got = []
+    saved = Mqtt.update
+
+    async def upd(topic, func_args):
+        got.append(dict(func_args))
+    Mqtt.update = upd
+    try:
+        h = Mqtt.mqtt_message_handler_maker("a/b")
+        await h(NS(topic="a/b", payload='{"cmd": "on"}', qos=0, retain=False))
+        await h(NS(topic="a/b", payload="hello", qos=1, retain=True))
+    finally:
+        Mqtt.update = saved
+    await shutdown()
+    want = [{"trigger_type": "mqtt", "topic": "a/b", "payload": '{"cmd": "on"}', "qos": 0, "retain": False, "payload_obj": {"cmd": "on"}},
+            {"trigger_type": "mqtt", "topic": "a/b", "payload": "hello", "qos": 1, "retain": True}]
+    return {"reproduced": got != want, "observed": got, "expected": want}
+
+
 async def c12_outgoing(w):
     """service.call / domain.service() with control-keyword look-alikes; data delivered must equal the given kwargs
     minus control keywords of the recognised type."""
@@ -754,6 +779,45 @@ async def c09_webhook_id_taken(w):
     await shutdown()
     return {"reproduced": listed_after_refusal or regs != ["c09hook"] or e2 is not None or bool(obs["left"]), "observed": obs,
             "expected": "nothing listed after the refusal; the second subscriber is registered once and removed without error"}
+
+
+async def c04_watch_list(w):
+    """@state_trigger("pyscript.a == '1'", "pyscript.b", watch=["pyscript.a"]): only changes of the watched name can trigger;
+    a change of pyscript.b (an any-change name outside the watch list) does nothing.  Both subsystems."""
+    from types import SimpleNamespace as NS
+    from custom_components.pyscript.global_ctx import GlobalContext, GlobalContextMgr
+    from custom_components.pyscript.state import State, StateVal
+    out = {}
+    for sub in ("new", "legacy"):
+        hass = await boot_full(legacy=(sub == "legacy"))
+        table = fake_states(hass)
+        State.notify_var_last.clear()
+        table["pyscript.a"] = ("0", {})
+        table["pyscript.b"] = ("0", {})
+        ran = []
+        name = f"file.c04w_{sub}"
+        g = GlobalContext(name, global_sym_table={"__name__": name, "note": lambda v: ran.append(v)}, manager=GlobalContextMgr)
+        GlobalContextMgr.set(name, g)
+        g.set_auto_start(True)
+        _, _, exc = await run_source(name, "@state_trigger(\"pyscript.a == '1'\", 'pyscript.b', watch=['pyscript.a'])\ndef f(var_name=None, **kw):\n    note(var_name)\n", global_ctx=g)
+        await settle(40)
+
+        async def change(ent, old, new):
+            table[ent] = (new, {})
+            nv = StateVal(NS(state=new, attributes={}, entity_id=ent, last_updated="u", last_changed="c", last_reported="r"))
+            ov = StateVal(NS(state=old, attributes={}, entity_id=ent, last_updated="u", last_changed="c", last_reported="r"))
+            await State.update({ent: nv, f"{ent}.old": ov}, {"trigger_type": "state", "var_name": ent, "value": nv, "old_value": ov, "context": None})
+            await settle(40)
+        await change("pyscript.b", "0", "5")
+        await change("pyscript.a", "0", "1")
+        await change("pyscript.b", "5", "6")
+        out[sub] = {"ran_for": list(ran), "expected": ["pyscript.a"], "error": repr(exc) if exc else None}
+        g.stop()
+        GlobalContextMgr.delete(name)
+        await settle(40)
+        await shutdown()
+    bad = {k: v for k, v in out.items() if v["ran_for"] != v["expected"]}
+    return {"reproduced": bool(bad), "observed": out, "expected": "one run, for the change of pyscript.a"}
 
 
 async def c09_state_notify_del(w):
